@@ -286,7 +286,7 @@ def make_console(cfg, theme=None):
     if nc == "env":
         environ = {"NO_COLOR": "1"}
         no_color = None
-    return Console(file=io.StringIO(), width=80, height=25, force_terminal=term, color_system=system,
+    return Console(file=io.StringIO(), width=cfg[5] if len(cfg) > 5 else 80, height=25, force_terminal=term, color_system=system,
                    no_color=no_color, legacy_windows=legacy, record=record, _environ=environ, theme=theme)
 
 
@@ -463,6 +463,18 @@ def _expected(mode, segs, spans, cfg, derive):
         vis = visible(dv(ref_of(sd)), cfg) if sd is not None else NULLVIS
         for ch in text:
             cells.append((ch, vis, sd is None))
+    if len(cfg) > 5 and mode == "seg":
+        # a narrow console crops every line of a print to its width (part K uses one-cell characters only):
+        # the characters that remain keep their own style
+        kept, col = [], 0
+        for cell in cells:
+            if cell[0] == "\n":
+                col = 0
+                kept.append(cell)
+            elif col < cfg[5]:
+                col += 1
+                kept.append(cell)
+        cells = kept
     return cells, controls
 
 
@@ -676,6 +688,22 @@ def gen_Q(tier):
         if not has_ctl and 1 <= len(seq) <= 2:
             for cfg in configs40():
                 yield ("text", seq, None, [], cfg, "ctor", "same")
+
+
+K_STYLES = [None, _sd([("bold", True)], fg="color(1)"), _sd([("underline", True)], bg="#ff8700", link=LINK)]
+K_TEXTS = ["ab", "abc", "a\nbcd"]
+
+
+def gen_K(tier):
+    """lines longer than the console: Console.print crops them, the kept part of every segment keeps its style"""
+    menu = [(t, sd, False) for t in K_TEXTS for sd in K_STYLES]
+    for n in (1, 2, 3):
+        for seq in itertools.product(menu, repeat=n):
+            if n == 3 and (tier == "quick" and seq[1][0] != "ab"):
+                continue
+            for width in (1, 2, 3, 4, 5):
+                for system, record in (("truecolor", False), ("standard", True)):
+                    yield ("seg", list(seq), None, [], (system, False, True, False, record, width), "ctor", "same")
 
 
 def gen_QH(tier):
@@ -1353,18 +1381,18 @@ def _replay_TH(case):
     return _in_child(child)
 
 
-GENS = {"S": gen_S, "SH": gen_SH, "SH2": gen_SH2, "Q": gen_Q, "QH": gen_QH, "T": gen_T,
+GENS = {"S": gen_S, "SH": gen_SH, "SH2": gen_SH2, "Q": gen_Q, "QH": gen_QH, "T": gen_T, "K": gen_K,
         "D": gen_D, "F": gen_F, "E": gen_E}
 
 
 def plan(tier, seed):
-    n = {"quick": {"S": 8, "SH": 10, "SH2": 4, "Q": 16, "QH": 4, "T": 2, "D": 4, "F": 2, "E": 2},
-         "thorough": {"S": 24, "SH": 32, "SH2": 8, "Q": 96, "QH": 4, "T": 4, "D": 24, "F": 4, "E": 2}}[tier]
+    n = {"quick": {"S": 8, "SH": 10, "SH2": 4, "Q": 16, "QH": 4, "T": 2, "D": 4, "F": 2, "E": 2, "K": 2},
+         "thorough": {"S": 24, "SH": 32, "SH2": 8, "Q": 96, "QH": 4, "T": 4, "D": 24, "F": 4, "E": 2, "K": 4}}[tier]
     shards = []
     # the thread shards first: they are the longest single shards
     for hid, gran, bound, k in _th_plan(tier):
         shards += [{"part": "TH", "h": hid, "gran": gran, "bound": bound, "i": i, "n": k} for i in range(k)]
-    for part in ("S", "SH", "SH2", "Q", "QH", "T", "D", "F", "E"):
+    for part in ("S", "SH", "SH2", "Q", "QH", "T", "D", "F", "E", "K"):
         shards += [{"part": part, "i": i, "n": n[part]} for i in range(n[part])]
     return shards
 
